@@ -87,7 +87,7 @@ fn gen_c17(rng: &mut Rng, n: usize, thorough: bool) -> Vec<String> {
     v
 }
 
-fn gen_c16(ctx: &ops::Ctx, rng: &mut Rng, n: usize, _thorough: bool) -> Vec<String> {
+fn gen_c16(ctx: &ops::Ctx, rng: &mut Rng, n: usize, thorough: bool) -> Vec<String> {
     let mut v = Vec::new();
     v.extend(
         [
@@ -102,6 +102,12 @@ fn gen_c16(ctx: &ops::Ctx, rng: &mut Rng, n: usize, _thorough: bool) -> Vec<Stri
     // the complete finite domain family × prefix length × max length
     v.extend(genr::exhaustive_lengths());
     v.extend(genr::exhaustive_covers());
+    // krill's own string helpers (the search side of the panic-site census): the fixed
+    // boundary shapes, then a fixed budget of generated strings (cheap: microseconds each)
+    v.extend(c16::strfn_fixed());
+    for _ in 0..(if thorough { 200_000 } else { 4_000 }) {
+        v.push(c16::strfn_case(rng));
+    }
     let seeds = c16::json_seeds();
     for i in 0..n {
         let line = match i % 10 {
